@@ -112,15 +112,13 @@ Fixpoint ntfs_dotgit_tail (name : bytes) : bool :=
   end.
 
 Definition is_ntfs_dotgit (name : bytes) : bool :=
-  match name with
-  | x2e :: g :: i :: t :: rest =>
-      if ci g x67 x47 && ci i x69 x49 && ci t x74 x54 then ntfs_dotgit_tail rest else false
-  | g :: i :: t :: tilde :: one :: rest =>
-      if ci g x67 x47 then
-        if ci i x69 x49 && ci t x74 x54 && beqb tilde x7e && beqb one x31 then ntfs_dotgit_tail rest else false
-      else false
-  | _ => false    (* shorter strings: some comparison meets the terminator and fails *)
-  end.
+  if beqb (at0 name 0) x2e then                                                  (* .git *)
+    ci (at0 name 1) x67 x47 && ci (at0 name 2) x69 x49 && ci (at0 name 3) x74 x54
+    && ntfs_dotgit_tail (skipn 4 name)
+  else if ci (at0 name 0) x67 x47 then                                           (* git~1 *)
+    ci (at0 name 1) x69 x49 && ci (at0 name 2) x74 x54 && beqb (at0 name 3) x7e && beqb (at0 name 4) x31
+    && ntfs_dotgit_tail (skipn 5 name)
+  else false.
 
 (* only_spaces_and_periods: from name[i] on *)
 Fixpoint only_spaces_and_periods (name : bytes) : bool :=
@@ -186,7 +184,7 @@ Definition is_dir_sep (c : byte) : bool := beqb c x2f.
 Definition nul_or_sep (c : byte) : bool := beqb c x00 || is_dir_sep c.
 
 (* skip_iprefix(rest, "modules", &rest) && ( *rest == 0 || is_dir_sep( *rest)) *)
-Fixpoint skip_iprefix (s prefix : bytes) : option bytes :=
+Fixpoint skip_iprefix (s prefix : bytes) {struct prefix} : option bytes :=
   match prefix with
   | [] => Some s
   | p :: prefix' =>
